@@ -16,10 +16,14 @@ from vlib import sqlo
 
 PROP = 'C03'
 META = {
-    'extractors': ['expr'],
+    'extractors': ['expr', 'pyexpr'],
     'technique': ('Lean 4 proof (structural induction over expression trees; fuel-based precedence-climbing reference '
                   'parser parametric in all binding powers) + operator tables extracted from sqlbuilder.py + '
-                  'differential correspondence on token streams and SQLite three-valued results'),
+                  'differential correspondence on token streams and SQLite three-valued results; TRANSLATOR tie: the bodies '
+                  'of SQLOp/SQLModulo/SQLPrefix/SQLCall/SQLConstant/Field/INSubquery (__init__, __sqlrepr__), the operator '
+                  'overloads of SQLExpression / SQLObjectField, AND/OR/NOT/_IN/IN/NOTIN/ISNULL/ISNOTNULL and the None/int/float/'
+                  'sequence converters are translated from the AST on every run (vlib/extractors/pyexpr.py -> Extracted/PyExpr.lean, '
+                  'deep embedding Model/PyExpr.lean) and proved equal to the hand model on all inputs (C03_translated_*)'),
     'level_text': ('Theorems C03_parse_render / C03_filter_sound: for every well-typed source tree (unbounded depth; boolean '
                    'subexpressions may also be operands of comparisons and arithmetic — E.b2i, value 1/0/NULL), every '
                    'dialect and EVERY assignment of binding powers to the operators, the reference parser recovers from the '
@@ -27,7 +31,13 @@ META = {
                    'tree is true on it under three-valued logic; `== None` is IS NULL and no (in)equality operator is ever '
                    'followed by NULL.  The operator each Python overload / builder emits, the None rules, the AND/OR fold '
                    'direction and SQLModulo\'s dialect split are regenerated from /repo on every run; the hand-written parts '
-                   '(paren rule, prefix and list rendering, Python\'s reflected dispatch) are compared with the real code.'),
+                   '(paren rule, prefix and list rendering, Python\'s reflected dispatch) are compared with the real code.  '
+                   'C03_translated_*: the Python bodies themselves (translated on every run) are run by a reference interpreter: '
+                   'every __sqlrepr__ / converter returns the text-level hand model (opStr / prefixStr / modStr / seqStr) for every '
+                   'interface, dialect string and operand rendering; sqlrepr of a whole graph = renderS, which spells the token '
+                   'rendering (Spells); every overload / builder call builds toVal(build …) incl. reflected dispatch; '
+                   'C03_parse_render_translated / C03_filter_sound_translated / C03_no_eq_null_translated restate the property about '
+                   'the text the translated source emits.'),
     'level_note': ('Trusted: Lean kernel; extractor vlib/extractors/expr.py (including the spelling table that maps SQL operator '
                    'strings to their meaning); the reference grammar (precedence climbing with IN-lists and calls) and the '
                    'SQLite-style evaluator `ev` as the meaning of SQL text (cross-checked against SQLite by execution); typed '
@@ -40,6 +50,12 @@ META = {
                 'spelling table SQL operator string -> meaning (ExprSyn.lean BinOp.spell / extractor BIN table)',
                 'mysql/postgres/firebird/sybase/maxdb/mssql parsers are not available: their renderings are compared token-wise and read by the reference parsers only'],
     'modelled': ['SQLite expression parser and evaluator (executed, not verified)',
+                 'translated-source theorems: Python semantics of the fragment (Model/PyExpr.lean), operator dispatch / method '
+                 'resolution / sqlrepr dispatch (Model/ExprX.lean binopX, cmpX, findMethod, sqlreprD); parameters: table / field '
+                 'names, repr of int / float, the column from_python conversion (identity on the compared constants in the whole-tree '
+                 'theorems); Spells relates tokens to text (that the text lexes back to exactly these tokens is the tokeniser of this harness)',
+                 'Select objects (clone / filter / newClause) are not translated: object re-use and non-mutation are checked on the real '
+                 'code by the re-use stream (derive from a base expression / base Select, then use the base again)',
                  'Python reflected-operator dispatch (int <op> expr) and IntCol.from_python on ints (identity)',
                  'integer arithmetic is unbounded in the model; cases whose intermediate values leave int64 are skipped'],
     'assumptions': ['well-typed fragment only: operands of arithmetic/comparison are numeric, operands of AND/OR/NOT are boolean; '
@@ -697,6 +713,102 @@ def oracle(t, res, text_level=True):
     return fails
 
 
+
+# --------------------------------------------------------------------------- object re-use (non-mutation)
+REUSE_DIRECTED = [
+    (('or|', ('cmp', 'gt', ('c', 0), ('k', 1)), ('eqnone', ('c', 0))), ('cmp', 'eq', ('c', 1), ('k', 2))),
+    (('cmp', 'le', ('c', 0), ('k', 0)), ('isnotnull', ('c', 1))),
+    (('in', ('c', 1), [('k', 0), ('k', 2), None]), ('cmp', 'ne', ('c', 0), ('k', 2))),
+]
+
+
+def run_reuse(tA, tC, flip=0):
+    """derive expressions / Selects from a base expression A and a base Select(where=A), then use the BASE again:
+    rendering or deriving must not change an object that was built earlier.  Oracle = three-valued evaluation of the
+    source trees (independent of the Lean model).  Returns a list of (kind, text), or None (not evaluable)."""
+    from sqlobject import sqlbuilder as sb
+    from sqlobject.sqlbuilder import sqlrepr
+    e = env()
+    cls, conn = e['cls'], e['conn']
+    q = cls.q
+    try:
+        wa = [(rid, ev(tA, (a, b, f))) for rid, a, b, f in e['rows']]
+        wc = [(rid, ev(tC, (a, b, f))) for rid, a, b, f in e['rows']]
+    except Overflow:
+        return None
+    ids_a = sorted(rid for rid, v in wa if v is True)
+    ids_c = sorted(rid for rid, v in wc if v is True)
+    ids_ac = sorted(rid for (rid, va), (_, vc) in zip(wa, wc) if va is True and vc is True)
+    try:
+        A = build_real(tA, flip)
+        C = build_real(tC, flip)
+    except Exception:
+        return []           # refusals / construction errors belong to the main stream
+    fails = []
+
+    def run_sql(sel):
+        return sorted(r[0] for r in conn.queryAll(sqlrepr(sel, 'sqlite')))
+
+    try:
+        before = dict((d, sqlrepr(A, d)) for d in DIALECTS)
+        before_c = dict((d, sqlrepr(C, d)) for d in DIALECTS)
+        derived = [A & C, C | A, ~A, sb.AND(A, C), sb.OR(C, A, A), sb.NOT(A), A == None, A != None,  # noqa: E711
+                   sb.ISNULL(A), sb.IN(A, [C, None]), sb.NOTIN(A, (C,)), A + C, A == C]
+        for x in derived:
+            for d in DIALECTS:
+                sqlrepr(x, d)
+        after = dict((d, sqlrepr(A, d)) for d in DIALECTS)
+        after_c = dict((d, sqlrepr(C, d)) for d in DIALECTS)
+        if after != before or after_c != before_c:
+            d = [d for d in DIALECTS if after[d] != before[d] or after_c[d] != before_c[d]][0]
+            fails.append(('expr-changed-by-deriving', 'an expression object renders differently after other expressions were '
+                          'built from it: before %s / %s, after %s / %s' % (before[d], before_c[d], after[d], after_c[d])))
+        # ---- Select level
+        base = sb.Select([q.id], where=A)
+        sql0 = sqlrepr(base, 'sqlite')
+        got = run_sql(base)
+        if got != ids_a:
+            fails.append(('select-base', 'Select(where=expr) returns ids %s, the tree selects %s; SQL: %s' % (got, ids_a, sql0)))
+        narrow = base.filter(C)
+        other = base.newClause(C)
+        same = [base.orderBy(q.id), base.newItems([q.id, q.a]), base.distinct(), base.unlimited(), base.lazyColumns(True),
+                base.clone(), base.filter(None)]
+        got = run_sql(narrow)
+        if got != ids_ac:
+            fails.append(('select-filter', 'base.filter(C) returns ids %s, A AND C selects %s; SQL: %s'
+                          % (got, ids_ac, sqlrepr(narrow, 'sqlite'))))
+        got = run_sql(other)
+        if got != ids_c:
+            fails.append(('select-newClause', 'base.newClause(C) returns ids %s, C selects %s; SQL: %s'
+                          % (got, ids_c, sqlrepr(other, 'sqlite'))))
+        for s_ in same:
+            got = run_sql(s_)
+            if got != ids_a:
+                fails.append(('select-derived', 'a Select derived from base without changing the clause returns ids %s, the tree '
+                              'selects %s; SQL: %s' % (got, ids_a, sqlrepr(s_, 'sqlite'))))
+                break
+        sql1 = sqlrepr(base, 'sqlite')
+        got = run_sql(base)
+        if got != ids_a:
+            fails.append(('select-base-after-deriving', 'the BASE Select returns ids %s after other Selects were derived from it, '
+                          'its tree selects %s; SQL before: %s; SQL after: %s' % (got, ids_a, sql0, sql1)))
+        elif sql1 != sql0:
+            fails.append(('select-base-text-changed', 'the BASE Select renders differently after deriving from it: %s / %s'
+                          % (sql0, sql1)))
+        got = sorted(o.id for o in cls.select(sb.IN(q.id, base)))
+        if got != ids_a:
+            fails.append(('select-base-as-subquery', 'select(IN(id, base)) returns ids %s after deriving from base, the tree selects %s'
+                          % (got, ids_a)))
+        got = sorted(o.id for o in cls.select(sb.IN(q.id, narrow)))
+        if got != ids_ac:
+            fails.append(('select-derived-as-subquery', 'select(IN(id, base.filter(C))) returns ids %s, A AND C selects %s' % (got, ids_ac)))
+        got = run_sql(narrow)
+        if got != ids_ac:
+            fails.append(('select-filter-after-reuse', 'base.filter(C) returns ids %s when run again, A AND C selects %s' % (got, ids_ac)))
+    except Exception as ex:
+        fails.append(('reuse-error', 're-using / deriving raised %s: %s' % (type(ex).__name__, ex)))
+    return fails
+
 # --------------------------------------------------------------------------- generators
 def leaves_num():
     return [('c', 0), ('c', 1), ('c', 2)] + [('k', v) for v in CONSTS] + [('f', v) for v in FEX]
@@ -1131,6 +1243,24 @@ def run(ctx):
             if key not in reported:
                 reported.add(key)
                 ctx.oracle_fail(key, text, {'tree': to_json(t), 'ser': s})
+    # object re-use stream: derive from a base expression / base Select, then use the base again (non-mutation)
+    pairs = list(REUSE_DIRECTED)
+    for _ in range(ctx.budget(150, 3000)):
+        pairs.append((rnd_bool(ctx.rng, ctx.rng.choice([1, 2, 2, 3])), rnd_bool(ctx.rng, ctx.rng.choice([1, 1, 2]))))
+    for i, (ta, tc) in enumerate(pairs):
+        if has_sub(ta) or has_sub(tc) or refused(ta) or refused(tc):
+            continue
+        fails = run_reuse(ta, tc, flip=i)
+        ctx.case('reuse ' + ser(ta) + ' / ' + ser(tc), nontrivial=True, kind='reuse')
+        if fails is None:
+            ctx.count('skipped:int64-overflow')
+            continue
+        if fails:
+            kind, text = fails[0]
+            key = 'C03:reuse-%s' % kind
+            if key not in reported:
+                reported.add(key)
+                ctx.oracle_fail(key, text, {'reuse': True, 'tree': to_json(ta), 'filter': to_json(tc), 'ser': ser(ta) + ' / ' + ser(tc)})
     # directed probe of the documented limit of the fragment (a note, not a verdict): a boolean whose text is
     # `NOT …` as the LEFT operand of an IN-subquery is not parenthesised by INSubquery.__sqlrepr__
     w = ('insub', ('b2i', ('NOT', ('cmp', 'eq', ('c', 0), ('k', 1)))), 0)
@@ -1153,6 +1283,13 @@ def to_json(t):
 def replay(case):
     env()
     t = from_json(case['tree'])
+    if case.get('reuse'):
+        tc = from_json(case['filter'])
+        fails = run_reuse(t, tc)
+        text = 'base tree  : %s\nderive with: %s\n' % (ser(t), ser(tc))
+        if fails:
+            text += '\n'.join('%s: %s' % f for f in fails)
+        return not fails, text
     res = run_impl(t)
     fails = oracle(t, res)
     text = 'tree  : %s\nsqlite: %s\nids   : %s\n' % (ser(t), res['texts'].get('sqlite'), res['ids'])
